@@ -64,6 +64,10 @@ type WSCase struct {
 	// Pongs: the clients put an unsolicited pong frame in front of every message, and the server has
 	// a pong handler, which is a callback of the connection like the others: one at a time
 	Pongs bool `json:"pongs,omitempty"`
+	// SendQueueMax: Upgrader.BlockingModSendQueueMaxSize (blocking I/O mode: frames waiting for the
+	// asynchronous writer; 0 = no limit). A write refused because the queue is full is an error for
+	// its caller - it must not leave half a message on the wire.
+	SendQueueMax int `json:"send_queue_max,omitempty"`
 }
 
 func genWSCase(r *simrt.Rand, tier string) *WSCase {
@@ -84,6 +88,9 @@ func genWSCase(r *simrt.Rand, tier string) *WSCase {
 	c.TLS = c.IOMod != "std" && r.Bool(0.2)
 	c.Release = r.Bool(0.2)
 	c.Pongs = r.Bool(0.2)
+	if r.Bool(0.3) {
+		c.SendQueueMax = r.Pick(1, 2, 3, 5)
+	}
 	nc := r.Range(1, 3)
 	for i := 0; i < nc; i++ {
 		p := WSConnPlan{Frag: r.Pick(0, 0, 1, 10), Eager: r.Bool(0.6), HandlerYields: r.Pick(0, 1, 3), Piece: r.Pick(1, 7, 100000, 100000)}
@@ -311,7 +318,7 @@ func runWSCase(t *testing.T, c *WSCase, trace bool) *common.Outcome {
 		byWSC := map[*websocket.Conn]*wsConnState{}
 		u := websocket.NewUpgrader()
 		u.KeepaliveTime = time.Hour
-		u.BlockingModSendQueueMaxSize = 0
+		u.BlockingModSendQueueMaxSize = uint16(c.SendQueueMax)
 		u.EnableCompression(c.Compress)
 		u.ReleasePayload = c.Release
 		byAddr := map[string]*wsConnState{}
